@@ -20,6 +20,25 @@ def mk_struct(ft_list, named, style, vis_i=0, raw=False, extra_attrs=()):
     return sx.struct('X', fs, attrs=list(extra_attrs), vis=VIS[vis_i % 3], gen=generics_for(needs, style=style)), names
 
 
+# (trait list, declaration, the trait-object type) for the unsized-target programs
+UNSIZED_TARGETS = [
+    ('Deref', 'pub struct X(dyn ::core::fmt::Debug + Sync);', 'dyn ::core::fmt::Debug + Sync'),
+    ('Deref, DerefMut', 'pub struct X(dyn ::core::fmt::Debug + Sync);', 'dyn ::core::fmt::Debug + Sync'),
+    ('Deref, DerefMut', 'pub struct X { pub a: dyn ::core::fmt::Debug }', 'dyn ::core::fmt::Debug'),
+    ('DerefMut, Deref', "pub struct X { a: dyn ::core::fmt::Debug + Send + Sync + 'static }", "dyn ::core::fmt::Debug + Send + Sync + 'static"),
+]
+
+
+COERCIBLE_TARGET = [
+    ('#[derive_ex(DerefMut)] struct X(String);  impl Deref for X { type Target = str; .. }',
+     '#[::derive_ex::derive_ex(DerefMut)]\npub struct X(pub String);\n'
+     'impl ::core::ops::Deref for X { type Target = str; fn deref(&self) -> &str { &self.0 } }\npub fn run() {}'),
+    ('#[derive(Ex)] #[derive_ex(DerefMut)] struct X { v: Vec<u8> }  impl Deref for X { type Target = [u8]; .. }',
+     '#[derive(::derive_ex::Ex)]\n#[derive_ex(DerefMut)]\npub struct X { pub v: Vec<u8> }\n'
+     'impl ::core::ops::Deref for X { type Target = [u8]; fn deref(&self) -> &[u8] { &self.v } }\npub fn run() {}'),
+]
+
+
 class C18(Prop):
     pid = 'C18'
     tag = 'Deref/DerefMut impls (header+body) and rejection messages'
@@ -109,6 +128,31 @@ class C18(Prop):
                     # the same program with the struct declared through a macro_rules! macro
                     mods.append(l2.Module(r.cid + 10 ** 6, '\n'.join([l2.via_macro(head, r.item)] + body[1:]).replace(
                         '"%d\\t' % r.cid, '"%d\\t' % (r.cid + 10 ** 6)), r))
+        # a possibly-unsized single field written as a bare trait object (with one bound / with several: `&dyn A + B`
+        # would be ambiguous): hand-written, the value is reached through a pointer cast of a `&dyn` reference
+        class _Lit:
+            def __init__(self, text, traits):
+                self.text, self.meta = text, dict(nontrivial=True, traits=traits, unsized=True)
+            def input_text(self):
+                return self.text
+        for k, (tl, decl, dynty) in enumerate(UNSIZED_TARGETS):
+            for mode in ('A', 'D'):
+                cid = 2 * 10 ** 6 + 2 * k + (mode == 'D')
+                head = ('#[::derive_ex::derive_ex(%s)]\n' % tl) if mode == 'A' else \
+                    '#[derive(::derive_ex::Ex)]\n#[derive_ex(%s)]\n' % tl
+                body = [head + '#[repr(transparent)]\n' + decl, 'pub fn run() {',
+                        '    let mut v = 5u8;',
+                        '    let p0 = &v as *const u8 as usize;',
+                        '    let r: &mut (%s) = &mut v;' % dynty,
+                        '    let x: &mut X = unsafe { &mut *(r as *mut (%s) as *mut X) };' % dynty,
+                        '    let p2 = ::core::ops::Deref::deref(&*x) as *const (%s) as *const u8 as usize;' % dynty,
+                        '    println!("%d\\tptr\\t{}", p0 == p2);' % cid]
+                if 'DerefMut' in tl:
+                    body.append('    let p3 = ::core::ops::DerefMut::deref_mut(x) as *mut (%s) as *const u8 as usize;' % dynty)
+                    body.append('    println!("%d\\tmutptr\\t{}", p0 == p3);' % cid)
+                body.append('}')
+                text = ('#[derive_ex(%s)] %s' % (tl, decl)) if mode == 'A' else '#[derive(Ex)] #[derive_ex(%s)] %s' % (tl, decl)
+                mods.append(l2.Module(cid, '\n'.join(body), _Lit(text, [t.strip() for t in tl.split(',')])))
         failures, samples = [], []
         validated = 0
         exe = l2.compile_batch('c18run', mods)
@@ -120,14 +164,16 @@ class C18(Prop):
             if not mo.compiled:
                 failures.append(dict(**{'class': 'deref-does-not-compile', 'mode': 'compile'},
                                      input=r.input_text() + ('   [item declared through a macro_rules! macro that writes the '
-                                                             'attribute: see vlib/l2.py via_macro]' if mo.cid >= 10 ** 6 else ''), observed=[d['message'] for d in mo.diags][:3],
+                                                             'attribute: see vlib/l2.py via_macro]' if 10 ** 6 <= mo.cid < 2 * 10 ** 6 else ''), observed=[d['message'] for d in mo.diags][:3],
                                      expected='compiles; deref returns the field itself'))
                 continue
             got = obs.get(str(mo.cid), [])
             want = [('ptr', 'true')] + ([('mutptr', 'true'), ('write', 'true')] if 'DerefMut' in r.meta['traits'] else [])
+            if r.meta.get('unsized'):
+                want = [w for w in want if w[0] != 'write']
             if got != want:
                 failures.append(dict(**{'class': 'deref-wrong-target', 'mode': 'behaviour'},
-                                     input=r.input_text() + ('   [declared through macro_rules!]' if mo.cid >= 10 ** 6 else ''), expected=want, observed=got))
+                                     input=r.input_text() + ('   [declared through macro_rules!]' if 10 ** 6 <= mo.cid < 2 * 10 ** 6 else ''), expected=want, observed=got))
             else:
                 validated += 1
                 if len(samples) < 2:
@@ -143,9 +189,20 @@ class C18(Prop):
                                      input=r.input_text(), expected='compile error: ' + want, observed=msgs[:3]))
             else:
                 validated += 1
+        # DerefMut derived next to a HAND-WRITTEN Deref whose Target is not the field's type but one the field coerces to:
+        # must not compile (the derived deref_mut would return a reference into the String's buffer, not to the field)
+        guard = [l2.Module(3 * 10 ** 6 + k, src, _Lit(text, ['DerefMut'])) for k, (text, src) in enumerate(COERCIBLE_TARGET)]
+        l2.compile_batch('c18guard', guard, check_only=True)
+        for mo in guard:
+            if mo.compiled:
+                failures.append(dict(**{'class': 'deref-mut-accepts-a-coercible-target', 'mode': 'compile'}, input=mo.meta.input_text(),
+                                     expected='refused by the compiler: Target is not the type of the field', observed='compiles'))
+            else:
+                validated += 1
+        l2.cleanup('c18guard')
         l2.cleanup('c18run')
         l2.cleanup('c18rej')
-        return dict(evaluations=len(mods) + len(rej), validated=validated, programs=len(mods) + len(rej),
+        return dict(evaluations=len(mods) + len(rej) + len(guard), validated=validated, programs=len(mods) + len(rej) + len(guard),
                     failures=failures, samples=samples)
 
 
